@@ -38,6 +38,9 @@ def blank(line):
 def install(e):
     install_read_headers(e)
     install_handshake(e)
+    install_request(e)
+    install_handshake2(e)
+    install_connect(e)
 
 
 def install_read_headers(e):
@@ -186,6 +189,8 @@ def install_handshake(e):
             conds += [pr_p, z3.Length(pr) > 0, z3.Or(*[_M.str_lower(pr) == _M.str_lower(z(s_)) for s_ in items])]
         return z3.And(*conds), pr
 
+    install_handshake2.valid_spec = lambda c, a, view=None: valid_spec(c, a, view)
+
     def val_post(c, old, a, res):
         ok, subp = res
         spec_ok, pr = valid_spec(c, a, old)
@@ -194,7 +199,8 @@ def install_handshake(e):
         sub_ok = (z3.And(z3.Not(zn(subp)), z(unopt(subp)) == _M.str_lower(pr)) if unopt(subp) is not None else z3.BoolVal(False)) if has_subs else zn(subp)
         return z3.And(z(ok, "bool") == spec_ok, z3.Implies(z(ok, "bool"), sub_ok), z3.Implies(z3.Not(z(ok, "bool")), zn(subp)))
     e.add(Contract(HS + "_validate", cases=[("no-subprotocols", val_case(0)), ("one-subprotocol", val_case(1)), ("two-subprotocols", val_case(2))],
-                   requires=val_req, ensures=val_post, result=lambda c, a: (c.fresh("bool", "valid"), c.fresh(("opt", "str"), "subproto")),
+                   ensures=val_post, result=lambda c, a: (c.fresh("bool", "valid"), c.fresh(("opt", "str"), "subproto")),
+                   raises=[(UnicodeEncodeError, lambda c, old, a: z3.Not(val_req(c, a)), None)],
                    havoc=lambda c, a, old, k: None, props=("C09", "C17"),
                    doc="(True, subprotocol) exactly when Upgrade lists the token websocket, Connection lists upgrade (comma separated, trimmed, "
                        "case-insensitive), the offered subprotocols (if any) contain the selected one case-insensitively, and "
@@ -219,3 +225,423 @@ def install_handshake(e):
                    modifies=lambda c, a: ["ghost:rpos", "ghost:rx_calls", "ghost:$line_start"], props=("C09", "C17"),
                    doc="returns only for a status in {101, 301, 302, 303, 307, 308}; any other status raises WebSocketBadStatusException after "
                        "reading at most min(Content-Length, 16384) bytes of the body (never a peer-declared amount); no internal error escapes"))
+
+
+# ===================================================================== C10: the opening request
+jar_cookie = z3.Function("jar_cookie", S, S)   # ghost: what the process-wide cookie jar returns for a host (its contract: C20)
+
+
+def install_request(e):
+    import websocket._handshake as hs
+    from pyvc.interp import mk
+    x = z3.Const("x", Sq)
+    smt.AXIOMS.append(z3.ForAll([x], smt.wf_utf8(e.b64(x)), patterns=[e.b64(x)]))
+
+    # the process-wide cookie jar as seen from the handshake (its methods are verified under C20)
+    def jar_override(c):
+        if "$jar" not in c.ghost:
+            c.ghost["$jar"] = c.new_ext("cookiejar")
+        return c.ghost["$jar"]
+    jar_override._is_override = True
+    e.global_overrides[("websocket._handshake", "CookieJar")] = jar_override
+    e.add(Contract("ext:cookiejar.get", assumed=True, result=lambda c, a: SV("str", jar_cookie(z(a["$args"][0]))), havoc=lambda c, a, old, k: None,
+                   doc="CookieJar.get(host): the cookie string of the jar for that host (contract proved on SimpleCookieJar.get, C20)"))
+
+    def jar_add(c, a, old, k):
+        c.ghost["jar_adds"] = SV("int", z(c.ghost["jar_adds"]) + 1) if "jar_adds" in c.ghost else 1
+        c.ghost["$last_set_cookie"] = a["$args"][0]
+    e.add(Contract("ext:cookiejar.add", assumed=True, havoc=jar_add, doc="CookieJar.add(set_cookie): one update of the jar (contract: C20)"))
+
+    # ---- _create_sec_websocket_key ---------------------------------------------------------------
+    def key_of_draw(d):
+        return _M.str_strip(smt.utf8_dec(e.b64(spec.keyfn(d))))
+
+    def ck_case(c):
+        c.ghost["draws"] = c.fresh("int", "draws")
+        c.assume(z(c.ghost["draws"]) >= 0)
+        return dict()
+
+    def ck_post(c, old, a, res):
+        d0 = z(old.ghost["draws"])
+        return z3.And(z(c.ghost["draws"]) == d0 + 1, slen(spec.keyfn(d0)) == 16, z(res) == key_of_draw(d0), spec.srcfn(d0) == 0)
+
+    def ck_havoc(c, a, old, k):
+        c.ghost["draws"] = c.fresh("int", "draws")
+    e.add(Contract(HS + "_create_sec_websocket_key", cases=[("any", ck_case)], ensures=ck_post, result=lambda c, a: c.fresh("str", "wskey"),
+                   havoc=ck_havoc, modifies=lambda c, a: ["ghost:draws"], props=("C10", "C09"),
+                   doc="exactly one draw of 16 bytes from os.urandom; result = base64 of that draw, decoded and stripped"))
+
+    # ---- _get_handshake_headers --------------------------------------------------------------------
+    OPT_KEYS = ["host", "origin", "suppress_origin", "connection", "subprotocols", "cookie", "header"]
+
+    def ghh_case(header_kind):
+        def case(c):
+            c.ghost["draws"] = c.fresh("int", "draws")
+            c.assume(z(c.ghost["draws"]) >= 0)
+            opts = {}
+            P = lambda n: smt.fresh(smt.Bool, f"has_{n}")
+            opts["host"] = (P("host"), c.fresh("str", "opt_host"))
+            opts["origin"] = (P("origin"), c.fresh(("opt!", "str"), "opt_origin"))
+            opts["suppress_origin"] = (P("suppress_origin"), c.fresh("bool", "opt_suppress"))
+            opts["connection"] = (P("connection"), c.fresh("str", "opt_connection"))
+            opts["cookie"] = (P("cookie"), c.fresh("str", "opt_cookie"))
+            nsub = c.choose(3)
+            if nsub:
+                opts["subprotocols"] = (True, c.alloc("list", None, [c.fresh("str", f"sub{i}") for i in range(nsub)]))
+            if header_kind == "list":
+                opts["header"] = (True, c.alloc("list", None, [c.fresh("str", "hdr0"), c.fresh("str", "hdr1")]))
+            elif header_kind == "dict":
+                opts["header"] = (True, c.alloc("dict", None, {"X-A": (True, c.fresh("str", "hv0")), "X-None": (True, None)}))
+            elif header_kind == "dict-own-key":
+                opts["header"] = (True, c.alloc("dict", None, {"Sec-WebSocket-Key": (True, c.fresh("str", "ownkey")),
+                                                               "Sec-WebSocket-Version": (True, c.fresh("str", "ownver"))}))
+            return dict(resource=c.fresh("str", "resource"), url=c.fresh("str", "url"), host=c.fresh("str", "host"), port=c.fresh("int", "port"),
+                        options=c.alloc("dict", None, opts))
+        return case
+
+    def ghh_req(c, a):
+        return z3.Contains(z(a["url"]), z3.StringVal(":"))
+
+    def decided(c, f):
+        """value of a formula that the path condition decides (request spec is evaluated per path)."""
+        if isinstance(f, bool):
+            return f
+        f = z3.simplify(f)
+        if z3.is_true(f):
+            return True
+        if z3.is_false(f):
+            return False
+        t, n = c.feasible(f), c.feasible(z3.Not(f))
+        if t and not n:
+            return True
+        if n and not t:
+            return False
+        return None
+
+    def request_spec(c, old, a, key_term):
+        """The request the statement of C10 prescribes, as a list of z3 strings (None if some condition is undecided)."""
+        Sv, Cc = z3.StringVal, z3.Concat
+        od = old.cell(a["options"]).data
+        host, port, url, resource = z(a["host"]), z(a["port"], "int"), z(a["url"]), z(a["resource"])
+
+        def opt(name):
+            ent = od.get(name)
+            if ent is None:
+                return False, None
+            p = decided(c, ent[0]) if ent[0] is not True else True
+            return p, ent[1]
+        lines = [Cc(Sv("GET "), resource, Sv(" HTTP/1.1")), Sv("Upgrade: websocket")]
+        packed = z3.If(z3.Contains(host, Sv(":")), Cc(Sv("["), host, Sv("]")), host)
+        hostport = z3.If(z3.Or(port == 80, port == 443), packed, Cc(packed, Sv(":"), z3.If(port >= 0, z3.IntToStr(port), Cc(Sv("-"), z3.IntToStr(-port)))))
+        hp, hv = opt("host")
+        if hp is None:
+            return None
+        use_host = hp and decided(c, z3.Length(z(hv)) > 0)
+        if use_host is None:
+            return None
+        lines.append(Cc(Sv("Host: "), z(hv)) if use_host else Cc(Sv("Host: "), hostport))
+        sp, sv = opt("suppress_origin")
+        sup = sp and decided(c, z(sv, "bool"))
+        if sp is None or sup is None:
+            return None
+        if not sup:
+            op, ov = opt("origin")
+            if op is None:
+                return None
+            if op and ov is not None:
+                lines.append(Cc(Sv("Origin: "), z(ov)))
+            else:
+                scheme = z3.SubString(url, 0, z3.IndexOf(url, Sv(":"), 0))
+                lines.append(z3.If(scheme == Sv("wss"), Cc(Sv("Origin: https://"), hostport), Cc(Sv("Origin: http://"), hostport)))
+        hdp, hdv = opt("header")
+        own_key = own_ver = False
+        hdr_items = []
+        if hdp:
+            cell = old.cell(hdv)
+            if cell.kind == "dict":
+                own_key, own_ver = "Sec-WebSocket-Key" in cell.data, "Sec-WebSocket-Version" in cell.data
+                hdr_items = [Cc(Sv(k + ": "), z(v)) for k, (p_, v) in cell.data.items() if v is not None]
+            else:
+                hdr_items = [z(v) for v in cell.data]
+        if not own_key:
+            lines.append(Cc(Sv("Sec-WebSocket-Key: "), key_term))
+        if not own_ver:
+            lines.append(Sv("Sec-WebSocket-Version: 13"))
+        cp, cv = opt("connection")
+        if cp is None:
+            return None
+        usec = cp and decided(c, z3.Length(z(cv)) > 0)
+        if usec is None:
+            return None
+        lines.append(Cc(Sv("Connection: "), z(cv)) if usec else Sv("Connection: Upgrade"))
+        sbp, sbv = opt("subprotocols")
+        if sbp:
+            items = [z(s_) for s_ in old.cell(sbv).data]
+            j = items[0]
+            for s_ in items[1:]:
+                j = Cc(j, Sv(","), s_)
+            lines.append(Cc(Sv("Sec-WebSocket-Protocol: "), j))
+        lines += hdr_items
+        ckp, ckv = opt("cookie")
+        if ckp is None:
+            return None
+        server_cookie = jar_cookie(host)
+        have_client = ckp and decided(c, z3.Length(z(ckv)) > 0)
+        have_server = decided(c, z3.Length(server_cookie) > 0)
+        if have_client is None or have_server is None:
+            return None
+        if have_server and have_client:
+            lines.append(Cc(Sv("Cookie: "), server_cookie, Sv("; "), z(ckv)))
+        elif have_server:
+            lines.append(Cc(Sv("Cookie: "), server_cookie))
+        elif have_client:
+            lines.append(Cc(Sv("Cookie: "), z(ckv)))
+        lines += [Sv(""), Sv("")]
+        return lines, own_key, (hdv if hdp else None)
+
+    def ghh_post(c, old, a, res):
+        headers, key = res
+        d0 = z(old.ghost["draws"])
+        got = c.cell(headers).data if isinstance(headers, Ref) else None
+        if isinstance(got, SymSeq) and c.mode == "assume":
+            # use at a call site: the list is kept abstract there; what callers rely on is the key and the single draw
+            od = old.cell(a["options"]).data
+            hd = od.get("header")
+            own = hd is not None and hd[0] is True and old.cell(hd[1]).kind == "dict" and "Sec-WebSocket-Key" in old.cell(hd[1]).data
+            keyc = (z(key) == z(old.cell(hd[1]).data["Sec-WebSocket-Key"][1])) if own else (z(key) == key_of_draw(d0))
+            return z3.And(keyc, z(c.ghost["draws"]) == d0 + 1)
+        if not isinstance(got, list):
+            return z3.BoolVal(False)
+        r = request_spec(c, old, a, key_of_draw(d0))
+        if r is None:
+            return z3.BoolVal(False)
+        want, own_key, hdv = r
+        if len(want) != len(got):
+            return z3.BoolVal(False)
+        eqs = [z(g) == w for g, w in zip(got, want)]
+        if own_key:
+            keyc = z(key) == z(old.cell(hdv).data["Sec-WebSocket-Key"][1])
+        else:
+            keyc = z(key) == key_of_draw(d0)
+        return z3.And(*eqs, keyc, z(c.ghost["draws"]) == d0 + 1)
+    e.add(Contract(HS + "_get_handshake_headers",
+                   cases=[(f"header-{k}", ghh_case(k)) for k in ("absent", "list", "dict", "dict-own-key")],
+                   requires=ghh_req, ensures=ghh_post,
+                   result=lambda c, a: (c.alloc("list", None, SymSeq(c.fresh("int", "nlines"), lambda c_, i: c_.fresh("str", "line"), "request")), c.fresh("str", "wskey")),
+                   havoc=ck_havoc, modifies=lambda c, a: ["ghost:draws"], props=("C10", "C20", "C09"),
+                   doc="the request lines are exactly: GET <resource> HTTP/1.1, Upgrade: websocket, Host (option or host[:port], IPv6 in brackets, "
+                       "port omitted for 80/443), Origin (suppressed / explicit / http(s)://hostport by scheme), Sec-WebSocket-Key of one fresh "
+                       "16-byte draw (unless supplied in a header dict), Sec-WebSocket-Version: 13, Connection: <value> (default Upgrade), "
+                       "Sec-WebSocket-Protocol, custom headers (dict entries with None dropped; list verbatim), Cookie (jar cookie then caller's), "
+                       "and two empty strings; the returned key is the one in the request"))
+
+
+def install_handshake2(e):
+    """handshake() and WebSocket.connect / create_connection (C09, C10, C17)."""
+    import websocket._handshake as hs
+    import websocket._core as core_mod
+    from .core import mk_ws, ghost_conn, TRANSPORT_EXC
+    K = "websocket._core:"
+    REDIR = tuple(int(x) for x in hs.SUPPORTED_REDIRECT_STATUSES)
+    ghh = e.contracts[HS + "_get_handshake_headers"]
+    val = e.contracts[HS + "_validate"]
+
+    def in_set(t, vals):
+        return z3.Or(*[t == v for v in vals])
+
+    def hs_case(nsub):
+        def case(c):
+            ghost_conn(c)
+            opts = {}
+            if nsub:
+                opts["subprotocols"] = (True, c.alloc("list", None, [c.fresh("str", f"sub{i}") for i in range(nsub)]))
+            opts["cookie"] = (smt.fresh(smt.Bool, "has_cookie"), c.fresh("str", "opt_cookie"))
+            c.ghost["jar_adds"] = c.fresh("int", "jar_adds")
+            return dict(sock=c.new_ext("sock"), url=c.fresh("str", "url"), hostname=c.fresh("str", "host"), port=c.fresh("int", "port"),
+                        resource=c.fresh("str", "resource"), options=c.alloc("dict", None, opts))
+        return case
+
+    # ghost: remember the key returned by _get_handshake_headers in this call and when the request was written
+    def after_ghh(c, fr, r):
+        c.ghost["$req_key"] = r[1]
+        c.ghost["$req_lines"] = r[0]
+    e.after_call[("handshake", "_get_handshake_headers")] = after_ghh
+
+    def after_send(c, fr, r):
+        c.ghost["$rx_calls_at_send"] = c.ghost.get("rx_calls")
+        c.ghost["$sends"] = SV("int", z(c.ghost["$sends"]) + 1) if "$sends" in c.ghost else 1
+    e.after_call[("handshake", "send")] = after_send
+
+    def hs_req(c, a):
+        return z3.And(z3.Contains(z(a["url"]), z3.StringVal(":")))
+
+    def hs_post(c, old, a, res):
+        if not isinstance(res, Ref):
+            return z3.BoolVal(False)
+        status, headers, subp = c.getf(res, "status"), c.getf(res, "headers"), c.getf(res, "subprotocol")
+        st = z(unopt(status), "int") if unopt(status) is not None else None
+        if st is None:
+            return z3.BoolVal(False)
+        if c.mode == "assume":
+            # use at a call site: the validity of the 101 response against the request's key is this function's own obligation;
+            # callers rely on the status classes and on the single jar update
+            return z3.And(z3.Not(zn(status)), z3.Or(z3.And(in_set(st, REDIR), zn(subp)), st == 101),
+                          z(c.ghost["jar_adds"]) == z(old.ghost["jar_adds"]) + 1 if "jar_adds" in old.ghost else z3.BoolVal(True))
+        if "$req_key" not in c.ghost:
+            return z3.BoolVal(False)
+        key = c.ghost["$req_key"]
+        subs = None
+        od = old.cell(a["options"]).data
+        if "subprotocols" in od:
+            subs = od["subprotocols"][1]
+        ok, pr = install_handshake2.valid_spec(c, dict(headers=headers, key=key, subprotocols=subs))
+        return z3.And(z3.Not(zn(status)),
+                      z3.Or(z3.And(in_set(st, REDIR), zn(subp)), z3.And(st == 101, ok)),
+                      # exactly one request, written before anything is read
+                      z3.BoolVal(c.ghost.get("$sends") == 1),
+                      z(c.ghost["$rx_calls_at_send"]) == z(old.ghost["rx_calls"]),
+                      z(c.ghost["jar_adds"]) == (z(old.ghost["jar_adds"]) if "jar_adds" in old.ghost else 0) + 1)
+
+    def hs_havoc(c, a, old, k):
+        for g, tg in (("rpos", "int"), ("rx_calls", "int"), ("wire", "bytes"), ("tx_calls", "int"), ("draws", "int")):
+            c.ghost[g] = c.fresh(tg, g)
+        c.ghost["$line_start"] = c.fresh("int", "line_start")
+        c.ghost["jar_adds"] = c.fresh("int", "jar_adds")
+
+    def hs_result(c, a):
+        return c.alloc("obj", hs.handshake_response, dict(status=c.fresh(("opt", "int"), "status"), headers=new_symmap(c),
+                                                           subprotocol=c.fresh(("opt", "str"), "subprotocol")))
+    HS_EXC = [X.WebSocketBadStatusException, X.WebSocketException] + RECV_EXC + [_socket.timeout]
+    e.add(Contract(HS + "handshake", cases=[("no-subprotocols", hs_case(0)), ("one-subprotocol", hs_case(1))], requires=hs_req,
+                   ensures=hs_post, result=hs_result, havoc=hs_havoc,
+                   raises=[(k_, None, None) for k_ in HS_EXC] + [(UnicodeEncodeError, None, None)],
+                   modifies=lambda c, a: ["ghost:rpos", "ghost:rx_calls", "ghost:wire", "ghost:tx_calls", "ghost:draws", "ghost:$line_start", "ghost:jar_adds"],
+                   props=("C09", "C10", "C17", "C20"),
+                   doc="writes exactly one request (the lines of _get_handshake_headers joined by CRLF) before the first read; returns only for a "
+                       "redirect status or for 101 with a head that _validate accepts against the key sent in this very request; the response's "
+                       "Set-Cookie goes to the process-wide jar once; everything else raises a documented exception"))
+
+
+def install_connect(e):
+    """_http.connect (as a contract; body: C11/C18/C19) and WebSocket.connect / create_connection (C09, C17)."""
+    import websocket._handshake as hs
+    import websocket._core as core_mod
+    from .core import mk_ws, ghost_conn, ghost_close
+    K = "websocket._core:"
+    REDIR = tuple(int(x) for x in hs.SUPPORTED_REDIRECT_STATUSES)
+    hsc = e.contracts[HS + "handshake"]
+
+    def in_set(t, vals):
+        return z3.Or(*[t == v for v in vals])
+
+    # ---- _http.connect(url, options, proxy, socket) as seen by its callers ---------------------------
+    def hc_result(c, a):
+        given = a.get("socket")
+        if given is not None:
+            sk = given
+        else:
+            sk = c.new_ext("sock")
+            c.ghost["opened_handles"] = SV("int", z(c.ghost["opened_handles"]) + 1)
+        return (sk, (c.fresh("str", "hostname"), c.fresh("int", "port"), c.fresh("str", "resource")))
+
+    def hc_post(c, old, a, res):
+        return z3.Contains(z(a["url"]), z3.StringVal(":"))
+    CONNECT_EXC = [X.WebSocketException, OSError, ValueError, http_mod.ProxyError]
+    e.add(Contract(H + "connect", cases=[], ensures=hc_post, result=hc_result, havoc=lambda c, a, old, k: None,
+                   raises=[(k_, None, None) for k_ in CONNECT_EXC], props=("C11", "C18", "C19"),
+                   doc="returns an open transport to the URL's target (the caller's own socket if one was given) and (host, port, resource) of "
+                       "parse_url; on failure raises and leaves no transport open; ValueError only for an invalid URL"))
+
+    # ---- WebSocket.connect(url, **options) ----------------------------------------------------------
+    def wc_case(kind):
+        def case(c):
+            ws = mk_ws(c, sock="none", connected=False, keysrc="none")
+            ghost_close(c)
+            c.ghost["opened_handles"] = c.fresh("int", "opened_handles")
+            c.ghost["jar_adds"] = c.fresh("int", "jar_adds")
+            c.ghost["$handshakes"] = 0
+            opts = {"redirect_limit": (smt.fresh(smt.Bool, "has_limit"), c.fresh("int", "redirect_limit")),
+                    "timeout": (smt.fresh(smt.Bool, "has_timeout"), c.fresh(("opt!", "real"), "timeout"))}
+            if kind == "own-socket":
+                opts["socket"] = (True, c.new_ext("sock", given=True))
+            return dict(self=ws, url=c.fresh("str", "url"), options=c.alloc("dict", None, opts))
+        return case
+
+    def after_hs(c, fr, r):
+        c.ghost["$handshakes"] = c.ghost.get("$handshakes", 0) + 1
+        c.ghost["$last_response"] = r
+    e.after_call[("WebSocket.connect", "handshake")] = after_hs
+    e.after_call[("WebSocket.connect", "connect")] = lambda c, fr, r: c.ghost.__setitem__("$connects", c.ghost.get("$connects", 0) + 1)
+
+    def net_handles(c, view):
+        return z(view.ghost["opened_handles"]) - z(view.ghost["closed_handles"])
+
+    def wc_post(c, old, a, res):
+        ws = a["self"]
+        resp = c.getf(ws, "handshake_response")
+        if not isinstance(resp, Ref):
+            return z3.BoolVal(False)
+        st = c.getf(resp, "status")
+        own = "socket" in old.cell(a["options"]).data
+        return z3.And(z(c.getf(ws, "connected"), "bool"), z3.Not(zn(c.getf(ws, "sock"))),
+                      z3.Not(zn(st)), (z(unopt(st), "int") == 101) if unopt(st) is not None else z3.BoolVal(False),
+                      z3.BoolVal(resp is c.ghost.get("$last_response")),
+                      # exactly one transport is left open: the one the object now owns
+                      net_handles(c, c) == net_handles(c, old) + (0 if own else 1))
+
+    def wc_fail(c, old, a, exc):
+        ws = a["self"]
+        own = old.cell(a["options"]).data.get("socket")
+        # every transport the library opened or took over in this call is closed again; a socket supplied by the caller is
+        # taken over once the transport set-up has returned it (before that, e.g. for an invalid URL, it is still the caller's)
+        taken = own is not None and c.ghost.get("$connects", 0) >= 1
+        return z3.And(zn(c.getf(ws, "sock")), z3.Not(z(c.getf(ws, "connected"), "bool")),
+                      net_handles(c, c) == net_handles(c, old) - (1 if taken else 0))
+
+    def wc_fail_value(c, old, a, exc):
+        # ValueError is the documented answer to an invalid URL given by the caller: only before any handshake
+        return z3.And(wc_fail_novalue(c, old, a, exc), z3.BoolVal(c.ghost.get("$handshakes", 0) == 0))
+
+    def wc_fail_novalue(c, old, a, exc):
+        return wc_fail(c, old, a, exc)
+
+    def wc_inv(c, fr, entry):
+        ws = fr.locals["self"]
+        resp = c.getf(ws, "handshake_response")
+        own = "socket" in entry.cell(fr.locals["options"]).data or fr.locals.get("$own", False)
+        st = c.getf(resp, "status") if isinstance(resp, Ref) else None
+        st_ok = z3.And(z3.Not(zn(st)), in_set(z(unopt(st), "int"), REDIR + (101,))) if st is not None and unopt(st) is not None else z3.BoolVal(False)
+        return z3.And(z3.Not(zn(c.getf(ws, "sock"))), z3.Not(z(c.getf(ws, "connected"), "bool")), st_ok,
+                      z3.BoolVal(isinstance(resp, Ref) and resp is c.ghost.get("$last_response")),
+                      net_handles(c, c) == z(fr.locals["$net0"]) + z(fr.locals["$delta"]))
+
+    def wc_loop_havoc(c, fr, entry):
+        ws = fr.locals["self"]
+        hsc.havoc(c, {}, entry, 0)
+        c.ghost["opened_handles"] = c.fresh("int", "opened_handles")
+        c.ghost["closed_handles"] = c.fresh("int", "closed_handles")
+        r = hsc.result(c, {})
+        c.setf(ws, "handshake_response", r)
+        c.ghost["$last_response"] = r
+        c.ghost["$handshakes"] = 2
+        c.ghost["$connects"] = 2
+        c.setf(ws, "sock", c.new_ext("sock"))
+        fr.locals["$delta"] = 1
+    e.loop("WebSocket.connect", 0, inv=wc_inv, havoc=wc_loop_havoc,
+           shapes={"url": "str", "addrs": ("tuple", ["str", "int", "str"])},
+           ghost_locals=lambda c, fr: {"$net0": SV("int", z(c.ghost["opened_handles"]) - z(c.ghost["closed_handles"]) -
+                                                   (0 if c.ghost.get("$own_socket") else 1)),
+                                       "$delta": 0 if c.ghost.get("$own_socket") else 1},
+           modifies=lambda c, fr: [fr.locals["self"], fr.locals["options"]])
+    old_ct = e.contracts[K + "WebSocket.connect"]
+    WC_EXC = [X.WebSocketException, OSError, http_mod.ProxyError, _socket.timeout, UnicodeEncodeError]
+    e.add(Contract(K + "WebSocket.connect", cases=[("resolve", wc_case("resolve")), ("own-socket", wc_case("own-socket"))],
+                   ensures=wc_post, havoc=old_ct.havoc,
+                   raises=[(UnicodeEncodeError, None, wc_fail_novalue), (ValueError, None, wc_fail_value)] + [(k_, None, wc_fail_novalue) for k_ in WC_EXC],
+                   modifies=lambda c, a: [a["self"], a["options"], c.getf(a["self"], "sock_opt")] + ["ghost:" + g for g in ("opened_handles", "closed_handles", "rpos", "rx_calls", "wire",
+                                                                                           "tx_calls", "draws", "$line_start", "jar_adds", "clock", "auto_close")],
+                   props=("C09", "C17"),
+                   doc="returns only with connected = True, a transport, and a final response of status 101 that handshake() validated against the key "
+                       "of that very request; redirects are followed at most redirect_limit times and a redirect status left after the loop, a "
+                       "redirect without Location or an unusable Location raise WebSocketException; on every failure the transport is closed, "
+                       "sock = None, connected = False; ValueError only for the caller's own invalid URL"))
